@@ -240,13 +240,18 @@ def MonthdayRange.hint (r : MonthdayRange) (d : Day) : M (Option Day) :=
       | some n => if n > d then .ok (some n) else .ok (withYear? n (year n + 1))
   | .month lo hi (some yr) =>
     let y : Int := yr
-    match ofYmd? y lo 1 with
-    | none => .ok none
-    | some start =>
-      let stop := if lo ≤ hi ∧ hi < 12 then ofYmd? y (hi + 1) 1 else ofYmd? (y + 1) (hi % 12 + 1) 1
-      match stop with
-      | none => .ok none
-      | some stop => .ok (some (nextChangeFromIntervals d (intervalsFromBounds [start] [stop])))
+    let firstDay (m : Nat) : Option Int := ofYmd? y m 1
+    let lastDay (m : Nat) : Option Int :=
+      if m < 12 then (ofYmd? y (m + 1) 1).bind pred? else ofYmd? y 12 31
+    if lo ≤ hi then
+      match firstDay lo, lastDay hi with
+      | some a, some b => .ok (some (nextChangeFromIntervals d (intervalsFromBounds [a] [b])))
+      | _, _ => .ok none
+    else
+      match firstDay 1, firstDay lo, lastDay hi, lastDay 12 with
+      | some a1, some a2, some b1, some b2 =>
+        .ok (some (nextChangeFromIntervals d (intervalsFromBounds [a1, a2] [b1, b2])))
+      | _, _, _, _ => .ok none
   | .date (.fixed (some sy) sm sd) so (.fixed ey em ed) eo =>
     match ofYmd? sy sm sd with
     | none => .ok none
@@ -413,9 +418,10 @@ def TimeSpan.asNaive (ctx : Ctx) (d : Day) (t : TimeSpan) : M (Nat × Nat) :=
   let s := t.start.asNaive ctx d
   let e := t.stop.asNaive ctx d
   if s < e then .ok (s, e)
-  else if e + 1440 > 2880 then .error "time_filter.rs:TimeSpan::as_naive overflow during TimeSpan resolution"
-  else if s ≤ e + 1440 then .ok (s, e + 1440)
-  else .error "time_filter.rs:TimeSpan::as_naive assert start <= end"
+  else
+    -- `end.add_hours(24).unwrap_or(MIDNIGHT_48)`, then `max(start, wrapped_end)`
+    let w := if e + 1440 > 2880 then 2880 else e + 1440
+    .ok (s, max s w)
 
 /-- `time_selector_intervals_at` -/
 def intervalsAt (ctx : Ctx) (ts : List TimeSpan) (d : Day) : M (List (Nat × Nat)) := do
@@ -458,7 +464,11 @@ def scheduleStep (ctx : Ctx) (d : Day) (st : Bool × Option Schedule) (r : Rule)
   let currEval ← ruleScheduleAt ctx r d
   match r.op, r.kind with
   | .normal, .open | .normal, .unknown =>
-    pure (currMatch || prevMatch, if currMatch then currEval else (prevEval <|> currEval))
+    pure (currMatch || prevMatch,
+      if currMatch then currEval
+      else match prevEval, currEval with
+        | some p, some c => some (p.addition c)
+        | p, c => p <|> c)
   | .additional, _ | .normal, .closed =>
     pure (prevMatch || currMatch,
       match prevEval, currEval with
@@ -489,7 +499,7 @@ def isConstant (e : Expr) : Bool :=
     let kind := last.kind
     match e.reverse.find? (fun rs => rs.day.isEmpty || !is0024 rs.time || rs.kind != kind) with
     | none => kind == .closed
-    | some tail => tail.kind == kind && tail.isConstant
+    | some tail => tail.kind == kind && tail.isConstant && tail.op != .fallback
 
 /-- `OpeningHours::next_change_hint` -/
 def nextChangeHint (ctx : Ctx) (e : Expr) (d : Day) : M (Option Day) :=
@@ -498,8 +508,14 @@ def nextChangeHint (ctx : Ctx) (e : Expr) (d : Day) : M (Option Day) :=
   else do
     let hs ← mapM' (fun (r : Rule) => do
       if isImmutableFullDay r.time then r.day.hint ctx d
-      else if !(← r.day.filter ctx d) then r.day.hint ctx d
-      else pure (succ? d)) e
+      else
+        -- `matched_today_or_yesterday` (`||` short-circuits; `pred_opt().is_some_and(..)`)
+        let m ← (do
+          if ← r.day.filter ctx d then pure true
+          else match pred? d with
+            | none => pure false
+            | some p => r.day.filter ctx p)
+        if !m then r.day.hint ctx d else pure (succ? d)) e
     -- `.min().flatten()`: `None` for an empty rule list
     match hs with
     | [] => pure none
